@@ -62,6 +62,8 @@ def pcanon_cfg(v):
             return ['obj', 'LabObjSet', {'tags': sorted(kw['tags'])}]
         if name == 'LabObjDerived':
             return ['obj', 'LabObjDerived', {'root': pcanon_cfg(kw['root'])}]
+        if name == 'LabObjVar':
+            return ['obj', 'LabObjVar', {'a': pcanon_cfg(kw['a']), 'options': pcanon_cfg({k: x for k, x in kw.items() if k != 'a'})}]
         if name == 'LabChainObj':
             return ['obj', 'LabChainObj', {'a': pcanon_cfg(kw['a']), 'inited': True}]
         return ['obj', name, {'x': pcanon_cfg(kw['x'])}]
@@ -93,6 +95,8 @@ def received_cfg(v, gv):
             return ['obj', 'LabObjSet', {'tags': sorted(kw['tags'])}]
         if name == 'LabObjDerived':
             return ['obj', 'LabObjDerived', {'root': received_cfg(kw['root'], gv)}]
+        if name == 'LabObjVar':
+            return ['obj', 'LabObjVar', {'a': received_cfg(kw['a'], gv), 'options': received_cfg({k: x for k, x in kw.items() if k != 'a'}, gv)}]
         if name == 'LabChainObj':
             return ['obj', 'LabChainObj', {'a': received_cfg(kw['a'], gv), 'inited': True}]
         return ['obj', name, {'x': received_cfg(kw['x'], gv)}]
